@@ -18,9 +18,9 @@ def run(tier: str, keep: bool = False) -> int:
     props = ["C06", "C05", "C10"]
     fam = ('Numbered({ [SoloBase(3, 1, n) EXCEPT !.immNak = i, !.maxPkt = mp, !.closure = c] : n \\in {3, 4}, i \\in BOOLEAN, '
            'mp \\in {27, 35, 512}, c \\in {FALSE} })')
-    r.solo("arrivals", "D", fam, ["md", "fd", "eof", "poll", "tick"], 5 if q else 6, props, limit=8000 if q else 250000)
-    r.solo("afterEof", "D", fam, ["md", "fd", "poll", "tick"], 6 if q else 7, props, pre=[["md", "fd"], ["fd", "eof"], ["eof", "fd"]],
-           limit=6000 if q else 250000)
+    r.solo("arrivals", "D", fam, ["md", "fd", "eof", "poll", "tick"], 5, props, limit=8000 if q else 80000)
+    r.solo("afterEof", "D", fam, ["md", "fd", "poll", "tick"], 6, props, pre=[["md", "fd"], ["fd", "eof"], ["eof", "fd"]],
+           limit=6000 if q else 80000)
     r.driver("dst_grid", 600 if q else 10000, props)
     r.schedules("pairK2", "FamAck(3, {1, 3})", ["C03", "C06", "C10"], K=2, faults=["drop", "dup", "swap"], limit=500 if q else None)
     r.judge()
